@@ -430,6 +430,10 @@ func runC05(r *Run) {
 		{"map-deep", map[string]interface{}{"a": map[string]interface{}{"b": map[string]interface{}{"c": inner}}}, "a.b.c.zz", "table"},
 		{"map-in-struct-in-map", map[string]interface{}{"s": S2{MS: map[string]S1{"k": {}}}}, "s.MS.zz", "table"},
 		{"empty-map-leaf", map[string]interface{}{"m": map[string]interface{}{}}, "m.zz", "table"},
+		{"absent-key-reads-like-an-error-message", map[string]interface{}{"meta": map[string]interface{}{"k": 1}}, `meta["struct field"]`, "table"},
+		{"path-reads-like-an-error-message", map[string]interface{}{"reg": map[string]interface{}{"struct field": map[string]interface{}{"tags": map[string]interface{}{}}}}, `reg["struct field"].tags.nope`, "table"},
+		{"absent-key-not-found-text", map[string]interface{}{"m": map[string]interface{}{"couldn't find key": map[string]interface{}{}}}, `m["couldn't find key"]["out of range"]`, "table"},
+		{"absent-key-invalid-kind-text", map[string]interface{}{"m": map[string]interface{}{}}, `m["invalid value kind"]`, "table"},
 		{"nil-map-leaf", S1{}, "M.zz", "table"},
 		{"intkey-map-leaf", S3{MI: map[int]string{1: "a"}}, "MI.7", "table"},
 		{"map-under-renamed-field", S7{Labels: map[string]string{"a": "b"}}, "labels.zz", "table"},
